@@ -297,9 +297,12 @@ func init() {
 		Level: "model_checking",
 		Build: verifC20Sys,
 		ReplayCase: func(cj string, seed int64) []verifFinding {
-			out, races := c20RunRaceBinary(seed)
-			if races > 0 {
-				return []verifFinding{{"C20:data-race", out}}
+			// the race detector samples schedules: a race that exists shows up within a few runs
+			for try := 0; try < 4; try++ {
+				out, races := c20RunRaceBinary(seed)
+				if races > 0 {
+					return []verifFinding{{"C20:data-race", out}}
+				}
 			}
 			return nil
 		},
